@@ -5,6 +5,8 @@ import (
 	"sort"
 	"strings"
 
+	"golang.org/x/tools/go/ssa"
+
 	"verif/sa/internal/ai"
 	"verif/sa/internal/oracle"
 	"verif/sa/internal/report"
@@ -243,9 +245,11 @@ func (c *Ctx) checkPlain(r *report.Result, reg oracle.Region, ev *DecEval, name 
 	}
 	// the element accesses whose index is an affine function of the address
 	var hits []elemAcc
+	offOf := map[ssa.Instruction]int64{}
 	for _, e := range ev.Elems {
-		if e.Idx != nil && e.Idx.HasBase && e.Idx.Base == ev.AddrSym {
+		if off, ok := addrOffset(e.Idx, ev.AddrSym, ev.Lo, ev.Hi); ok {
 			hits = append(hits, e)
+			offOf[e.At] = off
 		}
 	}
 	rule := "A-plain"
@@ -262,7 +266,7 @@ func (c *Ctx) checkPlain(r *report.Result, reg oracle.Region, ev *DecEval, name 
 		return
 	}
 	h := hits[0]
-	okIdx := h.Idx.Off == -int64(base)
+	okIdx := offOf[h.At] == -int64(base)
 	inBounds := h.Len < 0 || (h.Idx.Lo >= 0 && h.Idx.Hi < h.Len)
 	okArr := true
 	if reg.MirrorOf >= 0 {
@@ -270,7 +274,7 @@ func (c *Ctx) checkPlain(r *report.Result, reg oracle.Region, ev *DecEval, name 
 	} else {
 		arrayOf[reg.Lo] = h.Array
 	}
-	detail := fmt.Sprintf("accesses %s[addr%+d] (index range [%d,%d], array length %d); documented element addr-%#x", h.Array, h.Idx.Off, h.Idx.Lo, h.Idx.Hi, h.Len, base)
+	detail := fmt.Sprintf("accesses %s[addr%+d] (index range [%d,%d], array length %d); documented element addr-%#x", h.Array, offOf[h.At], h.Idx.Lo, h.Idx.Hi, h.Len, base)
 	if reg.MirrorOf >= 0 {
 		detail += fmt.Sprintf(" of the array of %04X (%s)", reg.MirrorOf, arrayOf[reg.MirrorOf])
 	}
@@ -305,7 +309,7 @@ func (c *Ctx) checkPlain(r *report.Result, reg oracle.Region, ev *DecEval, name 
 	}
 	r.Ob(rule, ok, name, where, detail)
 	if (ev.Lo & 0x0fff) == 0 {
-		r.Sample(map[string]interface{}{"class": name, "array": h.Array, "index": fmt.Sprintf("addr%+d", h.Idx.Off), "index_range": []int64{h.Idx.Lo, h.Idx.Hi}, "array_len": h.Len})
+		r.Sample(map[string]interface{}{"class": name, "array": h.Array, "index": fmt.Sprintf("addr%+d", offOf[h.At]), "index_range": []int64{h.Idx.Lo, h.Idx.Hi}, "array_len": h.Len})
 	}
 }
 
